@@ -50,6 +50,16 @@ LIST_TAKE_AX = [
     ForAll([l, i, x], Implies(And(0 <= i, i <= ln(l), nodup(l)), mem(take(l, i), x) == And(mem(l, x), idx(l, x) < i)), patterns=[mem(take(l, i), x)]),
     ForAll([l, i], Implies(And(0 <= i, i <= ln(l), nodup(l)), nodup(take(l, i))), patterns=[take(l, i)]),
 ]
+# the list that results from appending the first n elements of l one after the other, an element that is already listed being MOVED to the end
+# (what `for v in value: v.parent = p` builds): each element once, in the order of the last occurrences
+dl = Function('each_once_last_occurrence_order', LT.z, IntSort(), LT.z)
+LIST_DL_AX = [
+    ForAll([l], dl(l, 0) == empty, patterns=[dl(l, 0)]),
+    ForAll([l, i], Implies(And(0 <= i, i < ln(l)), dl(l, i + 1) == app(If(mem(dl(l, i), at(l, i)), rem(dl(l, i), at(l, i)), dl(l, i)), at(l, i))), patterns=[dl(l, i + 1)]),
+    ForAll([l], Implies(nodup(l), dl(l, ln(l)) == l), patterns=[dl(l, ln(l))]),                                                       # no repetition: the list itself (lemma by induction; validated)
+    ForAll([l, i], Implies(And(0 <= i, i <= ln(l)), nodup(dl(l, i))), patterns=[dl(l, i)]),
+    ForAll([l, i, x], Implies(And(0 <= i, i <= ln(l)), mem(dl(l, i), x) == And(mem(l, x), idx(l, x) < i)), patterns=[mem(dl(l, i), x)]),
+]
 # list concatenation l1 + l2
 cat = Function('cat', LT.z, LT.z, LT.z); l2_ = Const('l2_', LT.z)
 LIST_CAT_AX = [
